@@ -45,7 +45,9 @@ def model_match(s, host):
     return any(q[:len(g)] == g for g in s)
 
 
-URL_FORMS = ["%s", "http://%s/p/a.b?x=a.b", "https://u:p@%s:8080/", "//%s#f", "%s/r?to=https://a.b/", "%s:8080/x#http://b.a"]
+URL_FORMS = ["%s", "http://%s/p/a.b?x=a.b", "https://u:p@%s:8080/", "//%s#f", "%s/r?to=https://a.b/", "%s:8080/x#http://b.a",
+             # scheme-less with nothing after the authority
+             "%s:8080", "%s:80", "u@%s", "u:p@%s:1", "%s?q=a.b", "%s#a.b", "//%s:443"]
 
 
 def _compare(t, adds, queries, out, step, forms=URL_FORMS):
